@@ -89,6 +89,13 @@ def _gen_evolve(rng: random.Random, g: dict, cur: MG) -> tuple[list[list], MG]:
     return steps, MG(frozenset(N), frozenset(D), frozenset(B))
 
 
+def _order_for(rng: random.Random, m: MG) -> list[str]:
+    """A linear extension of the directed part of m (keeps evolve steps of an acyclic graph acyclic)."""
+    from graphsim import _rand_linear_extension
+
+    return _rand_linear_extension(rng, m)
+
+
 def gen_case_c14(seed: int, s: int, w: int, tier: str) -> dict:
     rng = random.Random(f"{seed}:C14:{s}")
     ngraphs = _wchoice(rng, [(1, 0.6), (2, 0.3), (3, 0.1)])
@@ -125,7 +132,20 @@ def gen_case_c14(seed: int, s: int, w: int, tier: str) -> dict:
                     new_prev.append((["p", r, c, len(script) - 1], rm))
             scripts[c] = script
         rnd: dict[str, Any] = {"scripts": scripts}
+        prev += new_prev
         if r < nrounds - 1:
+            # the owner of a returned graph goes on editing it: later operations on it must see the edits,
+            # nobody else may (memo fields pre-filled while a result was built would show here)
+            evr = []
+            cand = [i for i, (_, m) in enumerate(prev) if all("@" not in n for n in m.N)]
+            rng.shuffle(cand)
+            for i in cand[: rng.choice((0, 1, 1, 2))]:
+                tgt, m = prev[i]
+                pseudo = {"order": _order_for(rng, m) if m.is_acyclic() else None}
+                steps, m2 = _gen_evolve(rng, pseudo, m)
+                prev[i] = (tgt, m2)
+                evr.append([tgt[1:], steps])
+            rnd["evolve_results"] = evr
             ev = []
             for gi in range(ngraphs):
                 if rng.random() < 0.7:
@@ -133,7 +153,6 @@ def gen_case_c14(seed: int, s: int, w: int, tier: str) -> dict:
                     ev.append([gi, steps])
             rnd["evolve"] = ev
         rounds.append(rnd)
-        prev += new_prev
     pops = [{"name": "seq", "policy": "seq"}, _pop_inter(rng, "inter", tier)]
     ab = _pop_inter(rng, "abort", tier)
     ab["n_aborts"] = 2
